@@ -137,6 +137,7 @@ class _Fn:
         self.guard = None
         self.above_normalised = False
         self.above_scalar = None      # `above = ensure_listlike(above, pardim)[k]` was executed (after the guard)
+        self.above_scalar_kind = 'normIdx'   # or 'selfOrIdx' for `if not is_singleton(above): above = above[k]`
         self.result_init = False
         self.returned = False
         self.env = {}                 # name -> ('jet', key) | ('blist', dir, side) | ('expr', leanstr)
@@ -150,7 +151,7 @@ class _Fn:
             return ('default',)
         if _is_name(node, 'above'):
             if self.above_scalar is not None:
-                return ('normIdx', self.above_scalar)
+                return (self.above_scalar_kind, self.above_scalar)
             return ('raw',)
         if isinstance(node, ast.Constant) and node.value is True:
             return ('default',)
@@ -312,13 +313,13 @@ class _Fn:
                 if len(call.args) == 1:
                     return self.pardim == 1
                 return len(call.args) == 2 and (_is_self_attr(call.args[1], 'pardim') or _const_int(call.args[1]) == self.pardim)
-            if top and not self.sides and self.guard is not None and not self.above_normalised and self.above_scalar is None:
+            if top and not self.sides and not self.above_normalised and self.above_scalar is None:
                 if is_norm(rhs):
                     self.above_normalised = True
                     return
                 # above = ensure_listlike(above)[0]   (curves: the one direction's side as a bool)
-                if (isinstance(rhs, ast.Subscript) and is_norm(rhs.value) and _const_int(rhs.slice) is not None
-                        and 0 <= _const_int(rhs.slice) < self.pardim):
+                if (self.guard is not None and isinstance(rhs, ast.Subscript) and is_norm(rhs.value)
+                        and _const_int(rhs.slice) is not None and 0 <= _const_int(rhs.slice) < self.pardim):
                     self.above_scalar = _const_int(rhs.slice)
                     return
             _fail(st, 'unsupported assignment to `above`')
@@ -463,6 +464,20 @@ class _Fn:
                         self.norm.append(('indexZeroUnlessSingleton',))
                         continue
                     _fail(st, 'unsupported is_singleton block')
+                # if not is_singleton(above): above = above[k]     (after the guard, before any basis evaluation)
+                if (top and isinstance(t, ast.UnaryOp) and isinstance(t.op, ast.Not) and isinstance(t.operand, ast.Call)
+                        and _is_name(t.operand.func, 'is_singleton') and len(t.operand.args) == 1
+                        and _is_name(t.operand.args[0], 'above')):
+                    b = st.body
+                    if (self.guard is not None and not self.sides and not self.above_normalised and self.above_scalar is None
+                            and len(b) == 1 and not st.orelse and isinstance(b[0], ast.Assign) and len(b[0].targets) == 1
+                            and _is_name(b[0].targets[0], 'above') and isinstance(b[0].value, ast.Subscript)
+                            and _is_name(b[0].value.value, 'above') and _const_int(b[0].value.slice) is not None
+                            and 0 <= _const_int(b[0].value.slice) < self.pardim):
+                        self.above_scalar = _const_int(b[0].value.slice)
+                        self.above_scalar_kind = 'selfOrIdx'
+                        continue
+                    _fail(st, 'unsupported is_singleton(above) block')
                 # generic guard
                 if len(st.body) == 1 and isinstance(st.body[0], ast.Return) and not st.orelse and self.is_generic_return(st.body[0]):
                     if not top or self.guard is not None or self.sides or self.result_init:
@@ -566,8 +581,8 @@ SURF_UNFOLD = ('RatDeriv.surfD10, RatDeriv.surfD01, RatDeriv.surfD11, RatDeriv.s
                'RatDeriv.Surf.dG1dv, RatDeriv.Surf.dG2du, RatDeriv.Surf.dG2dv')
 
 # the sides the hand-written model (Obj.curveDerivativeRational / surfaceDerivativeRational) uses
-PINNED_SIDES = {'curve': [(0, 2, ('raw',)), (0, 1, ('raw',)), (0, 0, ('default',)), (0, 3, ('raw',))],
-                'surface': [(0, None, ('raw',)), (1, None, ('raw',))]}
+PINNED_SIDES = {'curve': [(0, 2, ('selfOrIdx', 0)), (0, 1, ('selfOrIdx', 0)), (0, 0, ('selfOrIdx', 0)), (0, 3, ('selfOrIdx', 0))],
+                'surface': [(0, None, ('normIdx', 0)), (1, None, ('normIdx', 1))]}
 
 # obligation -> known-finding class of the defect that makes it fail on the pinned tree
 K_LIST = 'rational-surface-d-not-tuple-returns-zeros'
